@@ -447,3 +447,37 @@ def m7_equivalence_predicate(ctx) -> None:
         else:
             ctx.violation("M7", g, f"non_empty_children runs over `{it[:50]}` instead of self.children: a child that occurs twice is counted once, so S -> X x X has one "
                           "non-empty child, is keyed and extracted as the equivalence S -> (X,), a rule nobody made")
+
+
+def m2b_reverse_rule_children(ctx) -> None:
+    """A reverse rule counts the child at position idx from the parent and the *other positions*:
+    its children are `(parent, children[:idx], children[idx+1:])` -- removed by position.  Removed
+    by value, a product with a repeated factor loses both copies (and every shift after it moves)."""
+    P = ctx.P
+    m = P.need_method("ReverseRule", "__init__", own=True)
+    f = m.node
+    ctx.analysed(m)
+    ps = m.params()[1:]
+    if len(ps) < 2:
+        raise AnalysisError("M2: ReverseRule.__init__(rule, idx) expected")
+    r, i = ps[0], ps[1]
+    sup = [c for c in walk_local(f) if isinstance(c, ast.Call) and isinstance(c.func, ast.Attribute) and c.func.attr == "__init__" and isinstance(c.func.value, ast.Call)
+           and norm(c.func.value.func) == "super"]
+    if not sup or len(sup[0].args) < 3:
+        raise AnalysisError("M2: ReverseRule.__init__ no longer passes (strategy, class, children) to the base class")
+    a1 = norm(D.expanded(f, sup[0].args[1]))
+    a2 = norm(D.expanded(f, sup[0].args[2]))
+    if a1 == f"{r}.children[{i}]":
+        ctx.ok("M2", "the reverse rule is a rule for the child at position idx")
+    else:
+        ctx.violation("M2", sup[0], f"the class of a reverse rule must be `{r}.children[{i}]`, found `{a1[:50]}`")
+    good = (f"({r}.comb_class, *{r}.children[:{i}], *{r}.children[{i} + 1:])", f"({r}.comb_class,) + {r}.children[:{i}] + {r}.children[{i} + 1:]")
+    if a2 in good:
+        ctx.ok("M2", "the children of a reverse rule are the parent and the other positions, in order")
+    elif " for " in a2 and ("!=" in a2 or "==" in a2 or " is not " in a2) and "enumerate(" not in a2:
+        ctx.violation("M2", sup[0], f"the children of the reverse rule are chosen by comparing classes (`{a2[:80]}`): a sibling equal to the counted child (a repeated factor) is "
+                      "dropped with it, and the shifts / parameter dictionaries, which are by position, no longer line up")
+    elif "enumerate(" in a2 and f"!= {i}" in a2:
+        ctx.ok("M2", "the children of a reverse rule are the parent and the other positions, in order")
+    else:
+        ctx.violation("M2", sup[0], f"the children of a reverse rule must be the parent followed by the other positions in order, found `{a2[:80]}`")
